@@ -257,7 +257,12 @@ class UnitEntry(HedSchemaEntry):
             conversion_factor(float or None): Returns the conversion factor or None
         """
         if HedKey.ConversionFactor in self.attributes:
-            return float(self.derivative_units.get(unit_name))
+            factor = self.derivative_units.get(unit_name)
+            if factor is None and unit_name is not None:
+                # units that are not symbols are matched case-insensitively (see get_derivative_unit_entry)
+                factor = self.derivative_units.get(unit_name.casefold())
+            if factor is not None:
+                return float(factor)
 
 
 class HedTagEntry(HedSchemaEntry):
